@@ -355,7 +355,7 @@ func addrRootV(v ssa.Value) (cell *ssa.Alloc, prefix string, root ssa.Value, ok 
 				return nil, "", nil, false
 			}
 		case *ssa.Alloc:
-			if !x.Heap {
+			if !x.Heap || cellLike(x) {
 				return x, "", nil, true
 			}
 			t := x.Type().Underlying().(*types.Pointer).Elem()
@@ -400,7 +400,7 @@ func (ex *Exec) instrWrites(fr *Frame, in ssa.Instruction, ws *writeSet, depth i
 			ws.add(prefix, root)
 		}
 	case *ssa.Alloc:
-		if !x.Heap {
+		if !x.Heap || cellLike(x) {
 			ws.cells[x] = true
 		} else {
 			ws.allocs = true // content of a fresh object: no existing ref is affected
@@ -727,7 +727,7 @@ func (ex *Exec) invariantRef(fr *Frame, st *State, li *loopInfo, ws *writeSet, v
 				}
 				break
 			}
-			if al, ok := a.(*ssa.Alloc); ok && !al.Heap && !ws.cells[al] {
+			if al, ok := a.(*ssa.Alloc); ok && (!al.Heap || cellLike(al)) && !ws.cells[al] {
 				if cur, ok := st.cells[al]; ok {
 					t := al.Type().Underlying().(*types.Pointer).Elem()
 					val := cur
@@ -934,12 +934,26 @@ func (ex *Exec) cutLoop(fr *Frame, st *State, li *loopInfo) {
 							s := sc(cur).S
 							st.ghost[gk] = Sc{ex.vc.Fresh("visited", s), s}
 						}
+						ck := fmt.Sprintf("$vcount_%p", rng)
+						if _, has := st.ghost[ck]; has {
+							nc := ex.vc.Fresh("vcount", BV(64))
+							ex.assume(st, app("bvsle", z64(), nc))
+							if ws.comps["Map_"+typeKey(rng.X.Type().Underlying())] {
+								delete(st.ghost, ck) // the map is modified while iterating: no counting facts
+							} else {
+								st.ghost[ck] = Sc{nc, BV(64)}
+							}
+						}
 					}
 				}
 			}
 		}
 	}
 	ex.assumeInvariants(fr, st, li)
+	if ex.loopHdr == nil {
+		ex.loopHdr = map[*loopInfo]*State{}
+	}
+	ex.loopHdr[li] = st.clone()
 }
 
 // epochInfo: untouched components of an epoch resolve to the parent epoch's
@@ -1011,14 +1025,171 @@ func (ex *Exec) checkInvariants(fr *Frame, st *State, li *loopInfo, kind string)
 	}
 	ex.invLoopBlocks = li.blocks
 	defer func() { ex.invLoopBlocks = nil }()
-	for i, inv := range lc.Invariants {
-		t := ex.evalBool(fr, st, fr.entry, nil, inv.Expr)
-		o := ex.oblige(st, fr, fmt.Sprintf("%s(L%d)", kind, li.ordinal), token.NoPos, inv.Text, t)
-		_ = i
-		if o != nil && len(inv.Props) > 0 {
-			o.Props = inv.Props
+	for _, inv := range lc.Invariants {
+		if kind == "inv-init" && hasProp(inv.Props, "init-assumed") {
+			// establishment on loop entry is an explicit, listed assumption
+			ex.vc.Trust("loop " + fmt.Sprint(li.ordinal) + " of " + funcName(fr.fn) + ": initial establishment of the invariant is assumed, not proved: " + inv.Text)
+			ex.abstracted["ASSUMED (not proved): initial establishment of loop invariant «"+inv.Text+"» in "+funcName(fr.fn)] = true
+			continue
+		}
+		// one obligation per top-level conjunct (looking through pure functions
+		// whose body is a conjunction), so a failure names the broken part
+		for _, e := range flattenAnd(inv.Expr) {
+			for _, part := range ex.splitClauseE(fr, st, nil, Clause{Expr: e, Text: exprText(e)}) {
+				term := part.term
+				if kind == "inv-init" {
+					if sk, ok := ex.skolemOnly(fr, st, part); ok {
+						term = sk
+					}
+				}
+				if kind == "inv-pres" {
+					// a universally quantified goal is skolemised here, and the
+					// loop's quantified invariants (assumed at the header) are
+					// instantiated at the skolem constants and their successors:
+					// reslicing and i++ shift indices by one, which E-matching on
+					// index arithmetic does not see
+					if sk, ok := ex.skolemGoal(fr, st, li, lc, part); ok {
+						term = sk
+					}
+				}
+				o := ex.oblige(st, fr, fmt.Sprintf("%s(L%d)", kind, li.ordinal), token.NoPos, part.text, term)
+				if o != nil && len(realProps(inv.Props)) > 0 {
+					o.Props = realProps(inv.Props)
+				}
+			}
 		}
 	}
+}
+
+func realProps(ps []string) []string {
+	var out []string
+	for _, p := range ps {
+		if p != "init-assumed" {
+			out = append(out, p)
+		}
+	}
+	return out
+}
+
+// quantShape recognises  forall vars :: body  and  cond ==> forall vars :: body.
+func quantShape(e Expr) (cond Expr, q *EQuant) {
+	if b, ok := e.(*EBin); ok && b.Op == "==>" {
+		if qq, ok := b.Y.(*EQuant); ok && qq.Forall {
+			return b.X, qq
+		}
+		return nil, nil
+	}
+	if qq, ok := e.(*EQuant); ok && qq.Forall {
+		return nil, qq
+	}
+	return nil, nil
+}
+
+// skolemOnly replaces the bound variables of a universally quantified goal by
+// fresh constants (the obligation stays equivalent).
+func (ex *Exec) skolemOnly(fr *Frame, st *State, part invConjE) (string, bool) {
+	cond, q := quantShape(part.expr)
+	if q == nil {
+		return "", false
+	}
+	c := part.ctx(st)
+	for _, qv := range q.Vars {
+		t := c.resolveType(qv.Type)
+		if !isSingleLeaf(t) {
+			return "", false
+		}
+		s := scalarSort(t)
+		c.env[qv.Name] = TVal{V: Sc{ex.vc.Fresh("sk_"+qv.Name, s), s}, T: t}
+	}
+	goal := c.boolTerm(q.Body)
+	if cond != nil {
+		goal = implies(c.boolTerm(cond), goal)
+	}
+	return goal, true
+}
+
+func (ex *Exec) skolemGoal(fr *Frame, st *State, li *loopInfo, lc *LoopContract, part invConjE) (string, bool) {
+	cond, q := quantShape(part.expr)
+	if q == nil {
+		return "", false
+	}
+	hdr := ex.loopHdr[li]
+	if hdr == nil {
+		return "", false
+	}
+	c := part.ctx(st)
+	// skolem constants
+	var sks []TVal
+	for _, qv := range q.Vars {
+		t := c.resolveType(qv.Type)
+		if !isSingleLeaf(t) {
+			return "", false
+		}
+		s := scalarSort(t)
+		n := ex.vc.Fresh("sk_"+qv.Name, s)
+		tv := TVal{V: Sc{n, s}, T: t}
+		c.env[qv.Name] = tv
+		sks = append(sks, tv)
+	}
+	goal := c.boolTerm(q.Body)
+	if cond != nil {
+		goal = implies(c.boolTerm(cond), goal)
+	}
+	// instantiate the header invariants
+	var cands []TVal
+	for _, sk := range sks {
+		if isInteger(sk.T) {
+			s := sc(sk.V)
+			cands = append(cands, sk, TVal{V: Sc{app("bvadd", s.T, bvInt(1, s.S.Width())), s.S}, T: sk.T})
+		} else {
+			cands = append(cands, sk)
+		}
+	}
+	for _, inv := range lc.Invariants {
+		for _, e := range flattenAnd(inv.Expr) {
+			for _, hp := range ex.splitClauseE(fr, hdr, nil, Clause{Expr: e, Text: exprText(e)}) {
+				hcond, hq := quantShape(hp.expr)
+				if hq == nil || len(hq.Vars) > 2 {
+					continue
+				}
+				hc := hp.ctx(hdr)
+				var rec func(k int)
+				count := 0
+				rec = func(k int) {
+					if count > 32 {
+						return
+					}
+					if k == len(hq.Vars) {
+						count++
+						t := func() (t string) {
+							defer func() {
+								if r := recover(); r != nil {
+									t = "true"
+								}
+							}()
+							b := hc.boolTerm(hq.Body)
+							if hcond != nil {
+								b = implies(hc.boolTerm(hcond), b)
+							}
+							return b
+						}()
+						ex.assume(st, t)
+						return
+					}
+					vt := hc.resolveType(hq.Vars[k].Type)
+					for _, cd := range cands {
+						if !types.Identical(vt.Underlying(), cd.T.Underlying()) {
+							continue
+						}
+						hc.env[hq.Vars[k].Name] = cd
+						rec(k + 1)
+					}
+				}
+				rec(0)
+			}
+		}
+	}
+	return goal, true
 }
 
 func (ex *Exec) assumeInvariants(fr *Frame, st *State, li *loopInfo) {
